@@ -120,7 +120,9 @@ def run(chk):
                 D.ob.cex['model'] = dict((str(d), str(f[2][d])) for d in list(f[2].decls())[:40])
     chk.extra['explored'] = explored
     c07.persist_load(chk)
-    chk.obligations = [o for o in chk.obligations if o.name in ('no-panic-path', 'storage-failures-invisible', 'load-decoding')]
+    import runmon
+    runmon.monitor_run(chk, chk.tier)       # the main loop and its start-up (stored finish time / target version arbitrary)
+    chk.obligations = [o for o in chk.obligations if o.name in ('no-panic-path', 'storage-failures-invisible', 'load-decoding', 'run-explored')]
     chk.bounds.update({'apps': 1, 'header bytes': 4, 'attempt loop unrolling': 5})
     chk.assumptions += [
         'installer contract: one result per offered app (a mismatch makes Vec::remove / zip misbehave; excluded as not contract-conforming)',
